@@ -344,6 +344,17 @@ class Dense:
                             p = (p[0], plus(p[1], a), p[2])
                         e = b
                     inside(z, p, what, extra_row=e)
+                elif x['k'] == 'CallExpr' and x.get('callee') in ('ploadu', 'pstoreu', 'pload', 'pstore') and fn.call_args(x):
+                    p = self.ptr_of(fn, fn.call_args(x)[0], resolve)
+                    if p is None:
+                        continue
+                    nsite += 1
+                    w = _packet_width(fn, x)
+                    if w is None:
+                        probs.append('%s: packet width unknown' % what)
+                        continue
+                    inside(z, p, what)
+                    inside(z, p, what, extra_row={1: w - 1})
                 elif x['k'] == 'CallExpr' and x.get('callee') == 'fill' and len(fn.call_args(x)) == 3:
                     a = fn.call_args(x)
                     p1, p2 = self.ptr_of(fn, a[0], resolve), self.ptr_of(fn, a[1], resolve)
@@ -388,3 +399,20 @@ class Dense:
                     need(z, ranges.lf_sub(tot, R), what, 'view ends inside its column')
             return nsite, probs
         return run
+
+
+def _packet_width(fn, call):
+    """number of scalars moved by a packet load / store: from the vector type of the call, else from a constexpr local"""
+    import re
+    for t in (call.get('targs') or []) + [call.get('t', '')]:
+        m = re.search(r'__vector_size__\((\d+) \* sizeof', t or '')
+        if m:
+            return int(m.group(1))
+    for x in fn.walk():
+        if x['k'] == 'DeclStmt':
+            for d in x['decls']:
+                if 'var' in d and fn.locals[d['var']]['name'] == 'PacketSize' and 'init' in d:
+                    n = fn.strip(fn.nodes[d['init']])
+                    if n is not None and 'cval' in n:
+                        return int(n['cval'])
+    return None
